@@ -677,7 +677,7 @@ def gen_expr(r: Any, lits: list[str] = TEXTS) -> tuple:
     return ("L", r.choice(lits)) if r.random() < 0.5 else ("V", r.choice(VARS + ["l", "f", "a"]))
 
 
-def gen_op(r: Any, depth: int, names: list[str], in_macro: bool = False) -> tuple:
+def gen_op(r: Any, depth: int, names: list[str]) -> tuple:
     kinds = ["T", "E", "E", "EF", "D", "D", "I", "I", "Dc", "C", "FC", "FC", "FA", "A", "A", "Cap", "M",
              "Call", "Call", "DN", "DN", "DN", "Tr", "Fail", "now", "now"]
     if names:
@@ -983,15 +983,6 @@ def fault_sweeps(r: Any, n_hist: int) -> list[list[tuple]]:
 
 
 # ---------------------------------------------------------------- classification
-
-
-def _ops_flat(p: list[tuple]) -> list[tuple]:
-    out = []
-    for o in p:
-        out.append(o)
-        if o[0] in ("Cap", "M", "B"):
-            out += _ops_flat(o[2])
-    return out
 
 
 def mechanisms(ops: list[tuple], steps: list[dict[str, Any]]) -> set[str]:
